@@ -176,6 +176,38 @@ def abandoned_big_results():
     return ok
 
 
+def join_timeout_zero():
+    """join_timeout=0 means "do not wait for a worker at all": with workers whose end() takes six seconds, a call that needs
+    replacements and the leaving of the context are over long before any end() has finished"""
+    import math
+    from windpyutils.parallel.own_proc_pools import FactoryFunctorPool, FunctorWorker, FunctorWorkerFactory
+
+    class W(FunctorWorker):
+        def __call__(self, x):
+            return x * 2 + 1
+
+        def end(self):
+            time.sleep(6)
+
+    class F(FunctorWorkerFactory):
+        def create(self):
+            return W(1)
+
+    t0 = time.time()
+    with FactoryFunctorPool(2, F(), join_timeout=0) as pool:
+        got = list(pool.imap(iter(range(5)), 1))
+    took = time.time() - t0
+    ok = True
+    if got != [1, 3, 5, 7, 9]:
+        print(f"WRONG join_timeout_zero: results {got}")
+        ok = False
+    if took > 5.0:
+        print(f"WRONG join_timeout_zero: call and exit took {took:.1f} s — the pool waited for workers busy in end() although "
+              f"join_timeout is 0")
+        ok = False
+    return ok
+
+
 def other_start_methods():
     """pools whose workers are started by the forkserver / by spawn (the worker's parent process is then not the process that
     created the worker object), over an input that pauses for more than a second between items and before its end"""
@@ -230,7 +262,7 @@ SpawnWorker = _ctx_worker("spawn")
 SpawnWorker.__name__ = SpawnWorker.__qualname__ = "SpawnWorker"
 
 
-EXTRA = {"abandoned_big_results": abandoned_big_results, "other_start_methods": other_start_methods, "two_pools_interleaved": two_pools_interleaved, "from_thread": from_thread, "low_fd_limit": low_fd_limit}
+EXTRA = {"join_timeout_zero": join_timeout_zero, "abandoned_big_results": abandoned_big_results, "other_start_methods": other_start_methods, "two_pools_interleaved": two_pools_interleaved, "from_thread": from_thread, "low_fd_limit": low_fd_limit}
 
 
 def main(name):
